@@ -19,7 +19,7 @@ def run(res):
               Dts={1}, MaxTimer=6, **BASE)
     cc.check_and_replay(res, 'c09_wake_frame', Kw, depth_all=0, walks=10000 if th else 1000)
     K3 = dict(G=('g1', 'g2', 'g3'), Script={'g1': (('y', 0), ('kill', 3)), 'g2': (('y', 2),), 'g3': (('start', 2), ('y', 1))},
-              Dts={1}, MaxTimer=6, **BASE)
+              Dts={1}, MaxTimer=6, **dict(BASE, WithKill=th))
     cc.check_and_replay(res, 'c09_three', K3, depth_all=0, walks=10000 if th else 1000)
     cc.trace_validate(res, 'c09_recorded', 6, 1000 if th else 100, 60)
     for sw in ('StartCancelsPendingKill', 'FinishDropsKillMark'):
